@@ -512,14 +512,14 @@ def stages(tier):
     return [
         EnumStage("single-mutations", SingleMutationLines, run_case,
                   exhaustive={"quick": True, "thorough": True},
-                  budget_s={"quick": 100, "thorough": 300}),
+                  budget_s={"quick": 300, "thorough": 300}),
         HypStage("handler", lambda t: cases(t), run_case, {"quick": 400, "thorough": 8000},
-                 budget_s={"quick": 100, "thorough": 900}),
+                 budget_s={"quick": 300, "thorough": 900}),
         HypStage("tcp", lambda t: cases(t), run_tcp, {"quick": 12, "thorough": 200},
-                 budget_s={"quick": 60, "thorough": 600}),
+                 budget_s={"quick": 180, "thorough": 600}),
         EnumStage("rude-clients", rude_cases, run_rude,
                   exhaustive={"quick": True, "thorough": True},
-                  budget_s={"quick": 60, "thorough": 120}),
+                  budget_s={"quick": 180, "thorough": 120}),
         FuzzStage("fuzz", "C03", [("raw", False), ("raw", True), ("hyp", False), ("raw", True)],
                   {"quick": 4000, "thorough": 50000}, run_case, fuzz_to_case, fuzz_seeds,
                   budget_s={"quick": 45, "thorough": 600}, max_len=4096,
